@@ -118,6 +118,23 @@ thread_local! {
     static HSM_FIRED: Cell<usize> = const { Cell::new(0) };
     static HSM_HANDLE: Cell<bool> = const { Cell::new(false) };
     static HSM_ROTATED: RefCell<Option<Vec<u8>>> = const { RefCell::new(None) };
+    static HSM_ERR_FLAVOUR: Cell<u8> = const { Cell::new(0) };
+}
+
+/// Which error an injected failure carries: 0 = the key's own error type
+/// (`Custom(HsmErr(n))`), 1.. = one of the library's own `InternalError`
+/// variants, which the interface also allows a key to return.
+pub fn hsm_set_err_flavour(f: u8) {
+    HSM_ERR_FLAVOUR.with(|x| x.set(f));
+}
+pub fn hsm_err_name(flavour: u8, n: usize) -> String {
+    match flavour % 5 {
+        0 => format!("Custom(HsmErr({n}))"),
+        1 => "InvalidByteSequence".into(),
+        2 => "PointError".into(),
+        3 => "SizeError".into(),
+        _ => "HkdfError".into(),
+    }
 }
 
 /// Fault: the key material behind the external-key interface changes (key
@@ -161,7 +178,7 @@ pub fn hsm_faults_fired() -> usize {
     HSM_FIRED.with(|f| f.get())
 }
 
-fn hsm_note(call: HsmCall) -> Result<(), HsmErr> {
+fn hsm_note(call: HsmCall) -> Result<(), InternalError<HsmErr>> {
     HSM_LOG.with(|l| l.borrow_mut().push(call));
     match call {
         HsmCall::PublicKey | HsmCall::DiffieHellman | HsmCall::Deserialize => {
@@ -171,7 +188,13 @@ fn hsm_note(call: HsmCall) -> Result<(), HsmErr> {
             });
             if HSM_FAIL_AT.with(|f| f.get()) == Some(n) {
                 HSM_FIRED.with(|f| f.set(f.get() + 1));
-                return Err(HsmErr(n as u32));
+                return Err(match HSM_ERR_FLAVOUR.with(|x| x.get()) % 5 {
+                    0 => InternalError::Custom(HsmErr(n as u32)),
+                    1 => InternalError::InvalidByteSequence,
+                    2 => InternalError::PointError,
+                    3 => InternalError::SizeError { name: "external key", len: n, actual_len: 0 },
+                    _ => InternalError::HkdfError,
+                });
             }
             Ok(())
         }
@@ -204,14 +227,14 @@ impl<KG: KeGroup> SecretKey<KG> for SimHsm<KG> {
         &self,
         pk: PublicKey<KG>,
     ) -> Result<GenericArray<u8, KG::PkLen>, InternalError<Self::Error>> {
-        hsm_note(HsmCall::DiffieHellman).map_err(InternalError::Custom)?;
+        hsm_note(HsmCall::DiffieHellman)?;
         live_key::<KG>(&self.0)
             .diffie_hellman(pk)
             .map_err(|e| InternalError::into_custom(e))
     }
 
     fn public_key(&self) -> Result<PublicKey<KG>, InternalError<Self::Error>> {
-        hsm_note(HsmCall::PublicKey).map_err(InternalError::Custom)?;
+        hsm_note(HsmCall::PublicKey)?;
         live_key::<KG>(&self.0)
             .public_key()
             .map_err(|e| InternalError::into_custom(e))
@@ -225,7 +248,7 @@ impl<KG: KeGroup> SecretKey<KG> for SimHsm<KG> {
     }
 
     fn deserialize(input: &[u8]) -> Result<Self, InternalError<Self::Error>> {
-        hsm_note(HsmCall::Deserialize).map_err(InternalError::Custom)?;
+        hsm_note(HsmCall::Deserialize)?;
         let mut raw = input.to_vec();
         handle_xform(&mut raw);
         <PrivateKey<KG> as SecretKey<KG>>::deserialize(&raw)
@@ -246,7 +269,7 @@ impl<KG: KeGroup> serde::Serialize for SimHsm<KG> {
 impl<'de, KG: KeGroup> serde::Deserialize<'de> for SimHsm<KG> {
     fn deserialize<D: serde::Deserializer<'de>>(d: D) -> Result<Self, D::Error> {
         use serde::de::Error;
-        hsm_note(HsmCall::Deserialize).map_err(|e| D::Error::custom(format!("{e}")))?;
+        hsm_note(HsmCall::Deserialize).map_err(|e| D::Error::custom(crate::suite::internal_name(&e)))?;
         let mut b = <GenericArray<u8, KG::SkLen> as serde::Deserialize>::deserialize(d)?;
         handle_xform(&mut b);
         <PrivateKey<KG> as SecretKey<KG>>::deserialize(&b)
